@@ -685,6 +685,7 @@ func runC06(c *eng.Ctx) {
 	ruleCreatedStreamUsesLoggedConfig(c)
 	ruleSnapshotSkipsTombstonedStreams(c)
 	ruleRestoreDeletesStreamsMissingFromSnapshot(c)
+	ruleRestoreAlwaysResets(c)
 	// the tombstone mark is only ever set; a tombstoned stream object is never revived in place
 	if tf := p.Field("server", "stream", "tombstone"); tf != nil {
 		n := 0
